@@ -44,7 +44,7 @@ CHECKS = {
    tech="deterministic simulation of time: testing/synctest fake clock (go1.26.8), seeded timing plans vs an ideal timed-wait model",
    note="Trusted: testing/synctest's fake clock and quiescence detection; goroutine choice inside a bubble is the Go runtime's, events are placed at distinct simulated instants and exact ties are counted as inconclusive. The pure clauses of C16 are not decided by simulation."),
  "C06": dict(cat="exploration", ref="8.8",
-   text="Seeded search over sets/orders/repetitions of co-translated packages, flag combinations, schedules of the per-package worker goroutines (yield at every function entry of the real translator and printer) and map-iteration permutations; every package's output and error list must be byte-identical to a golden translation of that package alone on the sequential schedule, in its own result slot; a -race build checks the workers for data races under the same kind of schedules; one plan in eight runs the instrumented cmd/goose binary itself (exit status, stderr, written files). Sampling, not proof.",
+   text="Seeded search over sets/orders/repetitions of co-translated packages, flag combinations, schedules of the per-package worker goroutines (yield at every function entry of the real translator and printer) and map-iteration permutations; every package's output and error list must be byte-identical to a golden translation of that package alone on the sequential schedule, in its own result slot; a -race build checks the workers for data races under the same kind of schedules; one plan in sixteen runs the instrumented cmd/goose binary itself (exit status, stderr, written files). Sampling, not proof.",
    tech="deterministic simulation: seeded schedule + map-order + co-translation-set search against sequential golden output, race detector under controlled schedules"),
  "C03": dict(cat="exploration", ref="8.9",
    text="Both sides are simulated: seeded generated race-free concurrent Goose programs run as real Go code under the deterministic scheduler (many schedules each), and the GooseLang text that the goose built from the working tree emits for them runs on an interpreter whose threads are tasks of the same scheduler. Each Go result must be reproduced by the GooseLang program driven along Go's order of synchronisation events (else searched over random interleavings), and schedule-independent programs must return the same value on sampled complete interleavings without cell race, stuck thread or deadlock. One recorded finding (loop variable captured directly) is reported as KNOWN-FINDING.",
